@@ -43,6 +43,20 @@ recovery of that state gives the same class, the class is not "other", and (wher
 one process) the state is one that some crash point of the uninterrupted run leaves as well (prefix_state_b; theorems
 C08_unwound_as_crash, C08_unwound_create_safe / _overwrite_safe; the abort path of write_patches is C08_unwound_create_prefix /
 _err, the regular end on the abort path is C08_finalize_on_abort_refuted).
+
+REBUILDS over an already valid older state (every tier; generated).  The hand-written tree workloads crash first builds and
+implicit rebuilds from one earlier binning; a rebuild is really (earlier state, requested binning, force): the cache holds, on
+every patch, trees + marker valid for an earlier binning X - with the same number of bins as the requested Y and other edges,
+the other closed side or both, with ANOTHER number of bins (b4: three), unbinned - or no trees at all, and build_trees(Y) runs
+with force=True or implicitly because the stored binning differs.  rebuild_matrix draws these from strata (quick: one workload
+per forced stratum and two implicit ones; thorough: the full matrix on scale s); EVERY file-system operation of the rebuild is
+a crash point (same strace / prefix-replay machinery), and every crash state is measured with X again, with Y and with a third
+binning; the oracle is the measurement on a fresh cache of the same data (never a recorded output).  Model: Model/FsRebuild.v
+(a rebuild = phases invalidate | trees | marker in an order that may depend on `force`; recovery that knows the bin counts:
+more trees than bins raise, fewer are used silently); theorems C08_rebuild_over_valid_safe(_bins) / _class_safe / _chain_safe /
+_complete for the order invalidate, trees, marker; C08_keep_marker_stale / C08_marker_before_trees_stale (for ALL X <> Y) and
+C08_forced_rebuild_stale_refuted / C08_phase_orders_classified for the others.  Coq also decides, per traced rebuild, which
+disciplines explain its operation list (evidence: rebuild_disciplines) and the hypotheses of the theorems on the prior state.
 """
 import json
 import os
@@ -91,17 +105,21 @@ ASSUMPTIONS = [
     "k-th call of a function of the package), in the main process" % U_GRACE,
     "a later measurement = yaw.crosscorrelate with the recovered catalog as reference (binned request) or as unknown "
     "sample (unbinned request) against fixed untouched catalogs",
+    "rebuilds: the earlier state is one an uninterrupted build_trees left (valid trees and marker on EVERY patch, or no trees); "
+    "binnings come from a fixed set of six (four with two bins - other edges, other closed side -, one with three, unbinned); "
+    "a chain of crashed rebuilds is covered by the theorem C08_rebuild_chain_safe, not by generated cases",
 ]
-RULE = ("case = (scale, workload, prior state, crash position k, later request); distinct by that tuple; non-trivial when "
+RULE = ("case = (scale, workload, prior state, crash position k, later request); a generated rebuild workload is (earlier state "
+        "nothing|binning, requested binning, force) with later requests earlier / rebuilt / third binning; distinct by that tuple; non-trivial when "
         "0 < k < number of operations (a state that exists only if the process dies there); a product workload is "
         "(class, path shape, str|Path, working directory, prior state); scale x = (chunk sizes drawn per run) x "
         "(create 32-byte records around one io block | overwrite in pieces of several blocks | create 24-byte records); "
         "an interrupted run is (scale, workload, position kind reader|call, position, way of dying, number of workers, later "
         "request), non-trivial when the process died at the position (did not complete)")
 
-HEADER = "From Verif Require Import Prelude FsCrash.\nOpen Scope nat_scope.\n"
+HEADER = "From Verif Require Import Prelude FsCrash FsRebuild.\nOpen Scope nat_scope.\n"
 
-TAG = {"none": 0, "b1": 1, "b2": 2, "b1L": 3, "b3": 4}
+TAG = {"none": 0, "b1": 1, "b2": 2, "b1L": 3, "b3": 4, "b4": 5}
 VAL = {"A": 1, "B": 2}
 REC_OFFSET = {"A": 0, "B": 1000}
 DEFAULT_REQ = "b1"
@@ -564,6 +582,91 @@ class ProductAbstraction:
 
 
 
+# ------------------------------------------------------------------ rebuilds over an already valid older state
+# A rebuild is (earlier state E, requested binning Y, force).  E: "nothing" (no tree cache at all) or trees + marker valid
+# for a binning (same number of bins as Y with other edges / the other closed side, ANOTHER number of bins, unbinned).  Y is
+# asked for with force=True or implicitly (force=False and the stored binning differs).  Every file-system operation of the
+# rebuild is a crash point, and every crash state is measured with the earlier binning, the rebuilt one and a third.
+# The strata below say which relation between E and Y a workload stands for; within a stratum the binnings are drawn.
+NOTHING = "nothing"
+SAME_COUNT = ["b1", "b2", "b3"]            # two bins, closed right, pairwise other edges
+RB_EARLIER = [NOTHING, "b1", "b2", "b1L", "b4", "none"]
+RB_REQUEST = ["b1", "b2", "b1L", "b4", "none"]
+RB_FIXED = {("b1", "b2", False), ("b1", "b1L", False), ("b1", "none", False), ("b1", "b1", True), (NOTHING, "b1", False),
+            ("none", "b1", False)}          # the hand-written workloads of define_workloads (the last one: thorough tier)
+
+
+def nbins_of(name):
+    edges = drv.BINNINGS[name][0]
+    return 0 if edges is None else len(edges) - 1
+
+
+def rebuild_relation(earlier, req):
+    """how the earlier state relates to the requested binning (histogram label / stratum)"""
+    if earlier == NOTHING:
+        return "no-trees"
+    if earlier == req:
+        return "same-binning"
+    if earlier == "none" or req == "none":
+        return "binned-vs-unbinned"
+    if nbins_of(earlier) != nbins_of(req):
+        return "other-bin-count"
+    if drv.BINNINGS[earlier][1] != drv.BINNINGS[req][1]:
+        return "other-closed-side" if drv.BINNINGS[earlier][0] == drv.BINNINGS[req][0] else "other-edges-and-closed-side"
+    return "other-edges-same-count"
+
+
+def rebuild_strata():
+    """stratum -> list of (earlier, request, force) it contains"""
+    out = {}
+    for e in RB_EARLIER + ["b3"]:
+        for y in RB_REQUEST + ["b3"]:
+            for force in (True, False):
+                if e == y and not force:
+                    continue                 # nothing to do: no operation, no crash point
+                out.setdefault("%s:%s" % ("forced" if force else "implicit", rebuild_relation(e, y)), []).append((e, y, force))
+    return out
+
+
+def rebuild_matrix(ctx, tag):
+    """the generated rebuild workloads of one scale: [(earlier, request, force, third)].
+    quick (scale s): one draw from every FORCED stratum (the hand-written workloads are implicit but one) and from two
+    implicit strata; thorough: scale s the full matrix RB_EARLIER x RB_REQUEST x force, scale m a draw from every forced
+    stratum in which the binnings differ and from two implicit ones, scale l three draws.  `third` = a binning that is
+    neither the earlier nor the requested one."""
+    rng = ctx.rng
+    strata = rebuild_strata()
+    names = sorted(strata)
+    forced = [n for n in names if n.startswith("forced")]
+    implicit = [n for n in names if n.startswith("implicit")]
+    picks = []
+    if tag == "s" and not ctx.quick():
+        picks = [(e, y, f) for e in RB_EARLIER for y in RB_REQUEST for f in (True, False) if not (e == y and not f)]
+    elif tag == "s":
+        # implicit rebuilds from b1 are hand-written: draw the implicit ones among the other earlier states
+        imp = [n for n in implicit if [c for c in strata[n] if c[0] != "b1"]]
+        rng.shuffle(imp)
+        for n in forced + imp[:2]:
+            cands = [c for c in strata[n] if c not in RB_FIXED and (c[2] or c[0] != "b1")]
+            picks.append(rng.choice(cands))
+    elif tag == "m":
+        imp = list(implicit)
+        rng.shuffle(imp)
+        ns = [n for n in forced if not n.endswith(("no-trees", "same-binning"))] + imp[:2]
+        picks = [rng.choice([c for c in strata[n] if c not in RB_FIXED] or strata[n]) for n in ns]
+    elif tag == "l":
+        ns = [n for n in forced if "other-edges-same-count" in n] + rng.sample(names, 2)
+        picks = [rng.choice(strata[n]) for n in ns]
+    out, seen = [], set()
+    for e, y, f in picks:
+        if (e, y, f) in seen or (e, y, f) in RB_FIXED:
+            continue
+        seen.add((e, y, f))
+        others = [b for b in TAG if b not in (e, y)]
+        out.append((e, y, f, rng.choice(others)))
+    return out
+
+
 # ------------------------------------------------------------------ one scale
 class Scale:
     def __init__(self, ctx, W, tag, scale):
@@ -727,6 +830,14 @@ class Scale:
             res_dir([("cdA.dat", "cd.dat"), ("cdA.smp", "cd.smp"), ("cdA.cov", "cd.cov")]), source=self.p("res", "cdB"))
         for j, sh in enumerate([] if self.big else self.product_shapes()):
             self.add_product(add, "p%02d_%s" % (j, sh["what"]), sh)
+        for e, y, force, third in ([] if self.big else rebuild_matrix(self.ctx, self.tag)):
+            # rebuild over an already valid older state: the later measurement asks for the earlier binning, the
+            # rebuilt one and a third
+            reqs = [r for r in ([] if e == NOTHING else [e]) + [y, third]]
+            add("rb_%s_%s_%s" % (e, y, "forced" if force else "implicit"), "build", "A", "A",
+                cat_with("A", None if e == NOTHING else e), requests=list(dict.fromkeys(reqs)), binning=y, force=force,
+                matrix=dict(earlier=e, request=y, force=force, third=third,
+                            stratum="%s:%s" % ("forced" if force else "implicit", rebuild_relation(e, y))))
         if only:
             wl = [w for w in wl if w["name"] in only]
         for w in wl:
@@ -996,6 +1107,46 @@ class Scale:
         b = r == self.res_digest[w["new_ds"]][key]
         return (4 if a and b else 2 if a else 3 if b else 1), {"result": r[:16]}
 
+    def patch_cache(self, st, pid):
+        """-> (binning tag the marker of patch pid decodes to | None when there is no marker or it is not a complete one,
+               binning tag the complete trees.pkl was built for | None)"""
+        bf, tf = os.path.join("patch_%d" % pid, "binning"), os.path.join("patch_%d" % pid, "trees.pkl")
+        m = t = None
+        if bf in st.files:
+            c = self.ab.content(bf, st.files[bf])
+            if c == "(BinF BByte)":
+                m = 0                         # the complete marker of "unbinned" (and a torn binned one)
+            elif c.startswith("(BinF (BWhole "):
+                m = int(c[len("(BinF (BWhole "):-2])
+        if tf in st.files:
+            c = self.ab.content(tf, st.files[tf])
+            if c.startswith("(TreesF (Some "):
+                t = int(c[len("(TreesF (Some "):-2])
+        return m, t
+
+    def rebuild_signature(self, w, k, st):
+        """what is wrong with the cache a crashed rebuild left, read off the files: a complete marker next to complete
+        trees built for another binning"""
+        mx = w["spec"]["matrix"]
+        how = "forced" if mx["force"] else "implicit"
+        old_t = None if mx["earlier"] == NOTHING else TAG[mx["earlier"]]
+        new_t = TAG[mx["request"]]
+        kinds = set()
+        for pid in self.refs[w["prior_ds"]]["ids"]:
+            m, t = self.patch_cache(st, pid)
+            if m is None or t is None or m == t:
+                continue
+            if m == old_t and t == new_t:
+                kinds.add("old-marker-over-new-trees")
+            elif m == new_t and t == old_t:
+                kinds.add("new-marker-over-old-trees")
+            else:
+                kinds.add("marker-and-trees-of-different-binnings")
+        for what in ("old-marker-over-new-trees", "new-marker-over-old-trees", "marker-and-trees-of-different-binnings"):
+            if what in kinds:
+                return "c08-rebuild-%s:%s-rebuild" % (what, how)
+        return "c08-rebuild-other:%s-rebuild:%s" % (how, self.position(w, k).split(",")[0])
+
     def position(self, w, k):
         """crash position class of prefix k (for signatures / evidence): the operation just completed"""
         if k == 0:
@@ -1008,6 +1159,8 @@ class Scale:
 
     def signature(self, w, k, st, req, det):
         kind = w["kind"]
+        if kind == "build" and w["spec"].get("matrix"):
+            return self.rebuild_signature(w, k, st)
         if kind == "build":
             # which patch is stale?
             new_t, stale = TAG[w["spec"]["binning"]], None
@@ -1063,6 +1216,7 @@ U_LABEL = ["error", "OTHER", "old", "new", "old=new"]
 U_RAISING = ["KeyboardInterrupt", "SystemExit", "OSError", "SIGINT", "SIGTERM-exit"]     # die by unwinding, main process only
 U_CALL_QUICK = ["create", "overwrite", "build_first", "rebuild_edges", "corrfunc_over", "corrdata_over"]
 U_CALL_MORE = ["metadata", "rebuild_closed", "rebuild_forced", "corrfunc_fresh", "corrdata_fresh", "p00_CorrData", "p07_CorrFunc"]
+DISCIPLINES = ["d_always", "d_never", "d_unforced_only", "d_forced_only"]     # Model/FsRebuild.v
 U_PARALLEL = 10
 U_TIMEOUT = 25       # seconds after which a job that does not come back is killed (an uninterrupted run takes 2 - 4)
 
@@ -1185,6 +1339,10 @@ def unwound_plan(ctx, S):
                 # is killed after the timeout, as its user would)
                 add(w, workers, "SIGINT-group", "reader", rng.randint(1, w["nchunks"]), workers == 1, timeout=12)
     calls = [by_name[n] for n in (U_CALL_QUICK if quick else U_CALL_QUICK + U_CALL_MORE) if n in by_name]
+    # generated rebuilds over a valid older state: forced ones whose earlier binning differs from the requested one
+    gen = [w for w in S.wl if w["spec"].get("matrix") and w["spec"]["matrix"]["force"]
+           and w["spec"]["matrix"]["earlier"] not in (NOTHING, w["spec"]["matrix"]["request"])]
+    calls += gen[:1] if quick else rng.sample(gen, min(4, len(gen)))
     return plan, calls
 
 
@@ -1364,6 +1522,10 @@ def sweep(ctx, S, cases):
                     c["sig"] = S.signature(w, k, st, req, det)
                 cases.append(c)
                 label = w["name"] if w["kind"] != "product" else "product:" + shape_class(w["spec"]["shape"])
+                mx = w["spec"].get("matrix")
+                if mx:
+                    label = "rebuild:%s:later=%s" % (mx["stratum"], "rebuilt-binning" if req == mx["request"] else
+                                                       "earlier-binning" if req == mx["earlier"] else "third-binning")
                 ctx.count(key=(S.tag, w["name"], k, req) if w["kind"] != "product" else (S.tag, json.dumps(w["spec"]["shape"], sort_keys=True), k),
                           nontrivial=0 < k < n, kind="%s:%s" % (label, ["error", "OTHER", "old", "new", "old=new"][cls]))
         ctx.log("scale %s %-22s %3d ops, %d crash points x %d requests  (%.1fs)" % (S.tag, w["name"], n, n + 1, len(reqs), time.time() - t0))
@@ -1382,11 +1544,39 @@ def coq_compare(ctx, scales, cases, ucases=()):
         w["coq_name"] = "w%d" % j
         defs.append("Definition w%d : workload := %s." % (j, w["term"]))
         defs.append("Definition i%d : list fop := %s." % (j, w["impl_ops"]))
+    # number of bins per binning id (Model/FsRebuild.v: more trees than bins raise, fewer are used silently)
+    defs.append("Definition nbt : list (nat * nat) := [%s]." % "; ".join("(%d, %d)" % (TAG[b], nbins_of(b)) for b in sorted(TAG, key=TAG.get)))
     header = HEADER + "\n".join(defs) + "\n"
     terms = []
     for j, (S, w) in enumerate(wl_index):
         terms += ["c08_ops false w%d i%d" % (j, j), "c08_ops true w%d i%d" % (j, j), "c08_hyp w%d" % j]
+    # rebuilds: the hypotheses of the rebuild theorems on the generated prior states (the stated earlier state holds on
+    # every patch), and which disciplines (order of the phases as a function of `force`) explain each traced rebuild
+    builds = [(j, w) for j, (S, w) in enumerate(wl_index) if w["kind"] == "build"]
+    n_reg = len(terms)
+    for j, w in builds:
+        mx = w["spec"].get("matrix")
+        earlier = (mx["earlier"] if mx else {"build_first": NOTHING, "rebuild_from_unbinned": "none"}.get(w["name"], "b1"))
+        terms.append("c08_rebuild_hyp w%d %s" % (j, "None" if earlier == NOTHING else "(Some %d)" % TAG[earlier]))
+        terms += ["c08_rebuild_ops %s w%d i%d" % (d, j, j) for d in DISCIPLINES]
     codes = ctx.shards("Ops_C08", header, terms, shard=3000)
+    per = 1 + len(DISCIPLINES)
+    explained = {d: [] for d in DISCIPLINES}
+    for n, (j, w) in enumerate(builds):
+        got = codes[n_reg + per * n:n_reg + per * (n + 1)]
+        S = wl_index[j][0]
+        if got[0] != 0:
+            ctx.obligation("hypotheses:%s/%s (rebuild: the prior state holds the stated earlier trees and marker on every patch, "
+                           "every patch is visited once)" % (S.tag, w["name"]), False, "c08_rebuild_hyp = %r" % (got[0],))
+        w["disciplines"] = [d for d, c in zip(DISCIPLINES, got[1:]) if c == 0]
+        for d in w["disciplines"]:
+            explained[d].append("%s/%s" % (S.tag, w["name"]))
+    ctx.extra["rebuild_hypotheses_checked"] = sum(1 for n in range(len(builds)) if codes[n_reg + per * n] == 0)
+    ctx.extra["rebuild_disciplines"] = {
+        "explaining_every_traced_rebuild": [d for d in DISCIPLINES if len(explained[d]) == len(builds)],
+        "rebuilds_explained": {d: len(explained[d]) for d in DISCIPLINES}, "rebuilds_traced": len(builds),
+        "note": "d_always = marker removed first, trees, marker last, forced or not (theorem C08_rebuild_over_valid_safe); "
+                "the others keep the old marker while the trees are rewritten (C08_keep_marker_stale)"}
     for j, (S, w) in enumerate(wl_index):
         cur, fix, hyp = codes[3 * j:3 * j + 3]
         w["ops_ok"] = {False: cur == 0, True: fix == 0}
@@ -1402,7 +1592,11 @@ def coq_compare(ctx, scales, cases, ucases=()):
     for c in cases:
         req = TAG.get(c["req"], 0)
         for fixed in ("false", "true"):
-            terms.append("c08_case %s %s %d %d %d" % (fixed, c["w"]["coq_name"], c["k"], req, c["cls"]))
+            if c["w"]["spec"].get("matrix"):
+                # generated rebuilds: the recovery of the model knows the numbers of bins
+                terms.append("c08_rebuild_case %s nbt %s %d %d %d" % (fixed, c["w"]["coq_name"], c["k"], req, c["cls"]))
+            else:
+                terms.append("c08_case %s %s %d %d %d" % (fixed, c["w"]["coq_name"], c["k"], req, c["cls"]))
     # (iii) interrupted runs: compiled at the same time as the crash points
     with ThreadPoolExecutor(max_workers=1) as ex:
         fut = ex.submit(unwound_compare, ctx, header, ucases) if ucases else None
@@ -1439,11 +1633,23 @@ def verdicts(ctx, wl_index, cases):
                              % (sh["what"], "to_files" if sh["what"] in TRIPLES else "to_file", "Path" if sh["as_path"] else "str",
                                 S.arg_of(w, "<dir>"), S.cwd_of(w, "<dir>"), sh["prior"],
                                 sorted(rp.replay_all(w["prior_state"], w["ops"][:c["k"]]).files), w["nd"], w["nr"]))
+                mx = w["spec"].get("matrix")
+                if mx:
+                    show = lambda b: "no tree cache" if b == NOTHING else "unbinned" if b == "none" else \
+                        "edges %s closed=%s" % (drv.BINNINGS[b][0], drv.BINNINGS[b][1])
+                    st_k = rp.replay_all(w["prior_state"], w["ops"][:c["k"]])
+                    caches = {pid: S.patch_cache(st_k, pid) for pid in S.refs[w["prior_ds"]]["ids"]}
+                    name_of = {v: n for n, v in TAG.items()}
+                    prior = ("dataset A with a tree cache valid on every patch for: %s [%s]; the process runs build_trees(%s [%s], force=%s) "
+                             "and dies; per patch (binning the marker on disk names, binning the trees on disk were built for): %s; the "
+                             "later measurement asks for %s [%s]"
+                             % (show(mx["earlier"]), mx["earlier"], show(mx["request"]), mx["request"], mx["force"],
+                                {pid: tuple(name_of.get(x, x) for x in mt) for pid, mt in caches.items()}, show(c["req"]), c["req"]))
                 what = ("workload %s (scale %s, prior state: %s), crash %s (after %d of %d operations), later request %s: "
                         "recovery succeeds with a result that is neither the old nor the new state: %s"
                         % (w["name"], S.tag, prior, c["pos"], c["k"], len(w["ops"]), c["req"], json.dumps(c["det"])))
                 ctx.fail(c["sig"], what, dict(scale=S.tag, scale_params=S.scale, workload=w["name"], k=c["k"], request=c["req"],
-                                              position=c["pos"], detail=c["det"], shape=w["spec"].get("shape"),
+                                              position=c["pos"], detail=c["det"], shape=w["spec"].get("shape"), rebuild=mx,
                                               ops=[dict(op=o["op"], path=o["path"], nbytes=len(o.get("data", b""))) for o in w["ops"]]),
                          case=c["idx"])
         if not w["ops_ok"][fixed]:
@@ -1594,6 +1800,10 @@ def run(ctx):
         unwound_verdicts(ctx, ucases)
         probes(ctx, scales, cases)
         buffering_evidence(ctx, scales)
+        ctx.extra["rebuild_matrix"] = [dict(scale=S.tag, operations=len(w["ops"]), later_requests=w["requests"],
+                                            model_form_agreeing="repaired" if w.get("variant") else "pinned",
+                                            disciplines_explaining_the_trace=w.get("disciplines"), **w["spec"]["matrix"])
+                                       for S in scales for w in S.wl if w["spec"].get("matrix")]
         ctx.extra["crash_points"] = len(cases)
         ctx.extra["interrupted_runs_classified"] = len(ucases)
         ctx.extra["worker_restarts"] = W.restarts
